@@ -47,7 +47,7 @@ def main():
         "hooks": {
             "guard": "EVENTPP_VERIF",
             "enable": "checks compile their harnesses from /repo/include with -DEVENTPP_VERIF (tools/vlib.py build_harness)",
-            "baseline_off_cmd": "cmake --build /repo/_build_tests -j16 && ctest --test-dir /repo/_build_tests -j8 --timeout 900",
+            "baseline_off_cmd": "cmake --install /repo/_build --prefix /repo/_prefix && cmake --build /repo/_build_tests -j16 && ctest --test-dir /repo/_build_tests -j8 --timeout 900",
             "source_commits": hooks_commits,
             "add_only": True,
         },
